@@ -102,7 +102,9 @@ struct Lower {
         body += "  struct " + rec(BD) + " __b" + std::to_string(bi++) + ";\n";
       }
       for (auto* F : RD->fields()) {
-        body += "  " + declare(F->getType(), fieldName(F), true) + ";\n";
+        if (F->isUnnamedBitfield()) continue;
+        // bit-fields keep their declared width: values are truncated on store exactly as in the C++ object
+        body += "  " + declare(F->getType(), fieldName(F), true) + (F->isBitField() ? " : " + std::to_string(F->getBitWidthValue(C)) : std::string()) + ";\n";
       }
       if (body.empty()) body = "  char __empty;\n";
     }
